@@ -5,4 +5,3 @@ package rsyncd
 // Export shim for the /verif correspondence harness (overlaid at build time, never committed to
 // the repository). Re-exports only; no behaviour.
 
-var VerifCheckACL = checkACL
